@@ -130,7 +130,12 @@ class Prop(SeqProp):
         from windpyutils.structures.circular_buffer import CircularBuffer
         kind = case.meta["kind"]
         sio = io.StringIO()
-        obj = Buffer() if kind == "buf" else PrintBuffer(sio) if kind == "pbuf" else CircularBuffer(1)
+        # the constructor's other parameters (terminator of a printed value, flushing after every print) vary with the case
+        variant = sum(len(o) for o in case.ops) % 4
+        pb_end = "\n" if variant < 2 else ";;"
+        obj = Buffer() if kind == "buf" else \
+            (PrintBuffer(sio) if variant == 0 else PrintBuffer(sio, print_flush=bool(variant % 2), end=pb_end)) if kind == "pbuf" \
+            else CircularBuffer(1)
         out = []
         ring_hist, ring_cap = [], 1
         s = lambda xs: ",".join(map(str, xs))
@@ -164,13 +169,13 @@ class Prop(SeqProp):
                         out.append(f"ret {len(obj)}")
                     elif w[0] == "out":
                         v = sio.getvalue()
-                        lines = v.split("\n")
+                        lines = v.split(pb_end)
                         out.append("list " + s("0" if x == "" else x for x in lines[:-1]) + ("" if lines[-1] == "" else ",?unterminated"))
                     else:
                         out.append("bad-op")
                 else:
                     if w[0] == "new":
-                        obj = CircularBuffer(int(w[1])); out.append("ok")
+                        obj = CircularBuffer(int(w[1])); out.append("ok" if obj.max_size == int(w[1]) else "ok max_size-mismatch")
                         ring_hist, ring_cap = [], int(w[1])
                     elif w[0] == "put":
                         obj.put(dec_val(int(w[1]))); out.append("ok")
